@@ -6,7 +6,8 @@ R1  TLC checks the specification's own lemmas: the aliasing lemma (SliceAlias.tl
     lemma for strided vectors, the IEEE laws of the extended-integer tables (ASSUMEs) and the
     order-independence of the sums on the emitted data (OrderFree).
 R2  spec->code: TLC enumerates function x length 0..70 x data variant (salted integer data plus
-    injected NaN / +-Inf / -0 at swept positions, special scalars) from SlicePrims.tla and prints
+    injected NaN / +-Inf / -0 at swept positions, ordered PAIRS of specials at two swept positions for
+    every reduction / norm / distance incl. the strided float64, float32 and complex forms, special scalars) from SlicePrims.tla and prints
     operands and expected results; the harness places the operands at every start offset 0..7
     past a 64-byte boundary (guard elements around them), fresh destination / destination
     aliasing a source, calls gonum (floats, BLAS level 1 float64 and float32 with increments
@@ -39,8 +40,15 @@ GROUPS = [
     ("spatial", G("R3Add", "R3Sub", "R3Scale", "R3Dot", "R3Cross", "R3Norm2", "R2Add", "R2Sub", "R2Scale", "R2Dot",
                   "R2Cross", "R2Norm2", "R3MatMulVec", "R3MatMulVecTrans", "R3MatAdd", "R3MatSub", "R3MatScale",
                   "R3MatMul", "R3MatDet", "R3MatOuter", "R3MatSkew", "R3MatT", "R3VecRow", "R3VecCol"), (20, 7), (70, 14), ""),
+    # ordered pairs of special values {NaN,+Inf,-Inf,-0}^2 at two swept positions (16 kind pairs per
+    # length; the position-class pair rotates with length/seed; thorough: all 16 x 21 per length <= 24)
+    ("pairs", G("SumP", "DotP", "Norm1P", "NormInfP", "Norm2P", "Dist1P", "DistInfP", "Dist2P", "CumSumP",
+                "MaxIdxP", "MinIdxP"), (40, 16), (70, 64), ""),
+    ("pairs-strided", G("DotIncP", "AsumIncP", "Nrm2IncP", "CNorm2P", "CNrm2P", "CAsumP"), (40, 16), (70, 64), ""),
     ("complex-strided", G("CNorm2", "CAxpy", "CDotu", "CDotc", "CScal", "CDscal", "CAsum", "CNrm2"), (70, 5), (70, 20), ""),
 ]
+PAIRS_ALL = G("SumP", "DotP", "Norm1P", "NormInfP", "Norm2P", "Dist1P", "DistInfP", "Dist2P", "CumSumP", "MaxIdxP", "MinIdxP")
+PAIRS_STRIDED_ALL = G("DotIncP", "AsumIncP", "Nrm2IncP", "CNorm2P", "CNrm2P", "CAsumP")
 # unit-stride kernels at long lengths (thorough): formula-valued integer data only
 LONGF = G("AddTo", "AddScaled", "ScaleTo", "Sum", "Dot", "CumSum", "Norm1", "Norm2", "MaxIdx", "CAddScaled", "CDot")
 LONGLIN = G("AddTo", "AddScaled", "ScaleTo", "Sum", "Dot", "Norm1", "Norm2")   # linear-time definitions only
@@ -73,6 +81,10 @@ def run(ctx):
                         subst=dict(FNS=fns, NMIN=0, NMAX=nmax, NVAR=nvar, SEED=seed, EXTRA=extra))
         replay_all(cases, name)
     if thorough:
+        for name, fns in (("pairs-all", PAIRS_ALL), ("pairs-strided-all", PAIRS_STRIDED_ALL)):
+            cases = ctx.gen("slices/SlicePrims.tla", "slices/SlicePrims_gen.cfg", name="R2 gen " + name,
+                            subst=dict(FNS=fns, NMIN=2, NMAX=24, NVAR=336, SEED=seed, EXTRA=""), timeout=1500)
+            replay_all(cases, name)
         for name, n, fns in LONG:
             cases = ctx.gen("slices/SlicePrims.tla", "slices/SlicePrims_gen.cfg", name="R2 gen " + name,
                             subst=dict(FNS=fns, NMIN=n, NMAX=n, NVAR=2, SEED=seed, EXTRA=""), timeout=1500)
